@@ -281,7 +281,8 @@ pub fn finish(
                 "cases": vs.iter().map(|v| v.case.clone()).collect::<Vec<_>>(),
             });
             let _ = std::fs::write(&file, serde_json::to_string_pretty(&body).unwrap());
-            ctx.say(&format!("  what: {}", vs[0].what));
+            let what: String = if vs[0].what.chars().count() > 700 { format!("{} ...[{} characters]", vs[0].what.chars().take(700).collect::<String>(), vs[0].what.chars().count()) } else { vs[0].what.clone() };
+            ctx.say(&format!("  what: {what}"));
             ctx.say(&format!(
                 "VIOLATION property={} replay={}",
                 ctx.property,
